@@ -349,6 +349,19 @@ def run_struct(fst, M, pi, res):
         'MRE': M.MRE('^[a-c]$'), 'MCall': M.MCall(), 'tag': M.M(t=M.MName()), 'str': 'a', 'MNOT(MName(a))': M.MNOT(M.MName('a')),
         'MBinOp': M.MBinOp(left=M.MName()), 'Constant': ast.Constant,
     }
+    if pi < 24 or pi >= len(PROGRAMS) - 4:  # every pattern combinator over every kind of operand (the search pre-filter is derived from the pattern structure)
+        bases = {'Name': lambda: ast.Name, 'MName(a)': lambda: M.MName('a'), 'MTYPES(N,C)': lambda: M.MTYPES((ast.Name, ast.Constant)),
+                 'MTYPES(C,value=1)': lambda: M.MTYPES((ast.Constant,), value=1), 'MTYPES(N,C,id=a)': lambda: M.MTYPES((ast.Name, ast.Constant), id='a'),
+                 'MConstant(1)': lambda: M.MConstant(1), 'MRE': lambda: M.MRE('^[a-c]$'), 'str': lambda: 'a', 'Mexpr': lambda: M.Mexpr(),
+                 'MCall(f)': lambda: M.MCall(func=M.MName('f')), 'astName(a)': lambda: ast.Name(id='a'), '...': lambda: ...}
+        wraps = {'MNOT': lambda x: M.MNOT(x), 'M': lambda x: M.M(t=x), 'MOR': lambda x: M.MOR(x, M.MConstant('zz')),
+                 'MAND': lambda x: M.MAND(M.Mexpr(), x), 'MORt': lambda x: M.MOR(o=x)}
+        for bn, b in bases.items():
+            for w1n, w1 in wraps.items():
+                pats[f'{w1n}({bn})'] = w1(b())
+                for w2n, w2 in wraps.items():
+                    if w2n in ('MNOT', 'MOR', 'MAND') or w1n == 'MNOT':
+                        pats[f'{w2n}({w1n}({bn}))'] = w2(w1(b()))
     scope_nodes = [((), None)] + [(sp, sn) for sp, sn in O.iter_nodes(ast.parse(src)) if isinstance(
         sn, (ast.FunctionDef, ast.AsyncFunctionDef, ast.ClassDef, ast.Lambda, ast.ListComp, ast.SetComp, ast.DictComp, ast.GeneratorExp))]
     for pn, p in pats.items():
